@@ -177,6 +177,13 @@ func c17Judge(c *mon.Ctx, aText, bText string, m V1Set) {
 		c.Violation("(v1) patched document does not Equal b under the same metadata", extra)
 		return
 	}
+	if sharedContainer(mkB()) == "" {
+		if msg := sharedContainer(P); msg != "" {
+			extra["patched"] = P.Json()
+			c.Violation("(v1) the patched document holds one container at two places ("+msg+"): a later in-place patch of one changes the other", extra)
+			return
+		}
+	}
 	if got := Plain1(P); !v1Oracle(got, b, m) {
 		extra["patched"] = ref.ToJSON(got)
 		c.Violation("(v1) patched document differs from b under the "+m.Reading.String()+" reading (independent canonical form)", extra)
